@@ -191,12 +191,12 @@ AcceptedCatalog(m) ==
 
 -----------------------------------------------------------------------------
 (* The round trip as a state machine (one behaviour per model). *)
-CONSTANTS Models      \* set of <<kind, model>> to explore (model checking)
 VARIABLES stage, mdl, wire, stored, result
 vars == <<stage, mdl, wire, stored, result>>
 
-Init ==
-  /\ mdl \in Models
+\* M = the set of <<kind, model>> to explore
+InitWith(M) ==
+  /\ mdl \in M
   /\ stage = "model" /\ wire = EmptyKV /\ stored = Store(EmptyKV) /\ result = NoRead
 
 EncodeStep ==
@@ -219,7 +219,6 @@ ProfileStep ==
   /\ UNCHANGED <<mdl, wire, stored>>
 
 Next == EncodeStep \/ StoreStep \/ DecodeStep \/ ProfileStep
-Spec == Init /\ [][Next]_vars
 
 \* C22: saving and reading back yields an equal model
 RoundTrip ==
